@@ -115,6 +115,7 @@ type enc struct {
 	projs          map[string]*projInfo
 	projOrder      []*projInfo
 	elemAddr       map[string]bool
+	firstPass      bool
 }
 
 type retRec struct {
@@ -125,7 +126,10 @@ type retRec struct {
 
 func (p *Program) encodeFunc(fn *ssa.Function) *FuncVC {
 	vc, gcs, prs := p.encodeFuncPass(fn, nil, nil)
-	if (len(gcs) > 0 || len(prs) > 0) && len(vc.Errors) == 0 {
+	if len(vc.Errors) == 0 {
+		if gcs == nil {
+			gcs = map[string]*ghostCell{}
+		}
 		// second pass: ghost cells bound at call sites and heap projections used by pure callees are
 		// now known from the start (loop heads havoc the former, every heap update relates the latter)
 		vc, _, _ = p.encodeFuncPass(fn, gcs, prs)
@@ -154,6 +158,7 @@ func (p *Program) encodeFuncPass(fn *ssa.Function, pre map[string]*ghostCell, pr
 	}
 	e.out = &FuncVC{Func: e.qn, Notes: map[string]bool{}}
 	e.projs, e.elemAddr = map[string]*projInfo{}, map[string]bool{}
+	e.firstPass = pre == nil && preProjs == nil
 	for _, pr := range preProjs {
 		e.projs[pr.fp.key()] = pr
 		e.projOrder = append(e.projOrder, pr)
@@ -512,8 +517,11 @@ func (e *enc) loadValue(st *State, addr string, t types.Type) string {
 		es := sortOf(u.Elem())
 		a := e.fresh("arr", sortOf(t))
 		if isHeapScalar(es) {
-			e.assert(fmt.Sprintf("(forall ((i Int)) (! (=> (and (<= 0 i) (< i %d)) (= (select %s i) (select %s (elem %s i)))) :pattern ((select %s i))))",
-				u.Len(), a, e.heapAt(st, es, addr), addr, a))
+			// total (all indices, also the never-addressed ones outside [0,len)): makes array values
+			// canonical, so that load(store(v)) == v and two loads of equal memory are equal
+			_ = u.Len()
+			e.assert(fmt.Sprintf("(forall ((i Int)) (! (= (select %s i) (select %s (elem %s i))) :pattern ((select %s i))))",
+				a, e.heapAt(st, es, addr), addr, a))
 		}
 		return a
 	}
@@ -564,8 +572,7 @@ func (e *enc) storeValue(st *State, addr, val string, t types.Type) {
 		}
 		old := e.heapAt(st, es, addr)
 		nw := e.fresh("Mem_"+sortKey(es), "(Array Ref "+es+")")
-		e.assert(fmt.Sprintf("(forall ((r Ref)) (! (= (select %s r) (ite (and ((_ is elem) r) (= (ebase r) %s) (<= 0 (eidx r)) (< (eidx r) %d)) (select %s (eidx r)) (select %s r))) :pattern ((select %s r))))",
-			nw, addr, u.Len(), val, old, nw))
+		e.elemUpdate("true", nw, old, fmt.Sprintf("(= qb %s)", addr), fmt.Sprintf("(select %s qi)", val))
 		if isLocalTerm(addr) {
 			st.cells[memCell(es, addr)] = nw
 		} else {
@@ -949,8 +956,16 @@ func (e *enc) callLocalMods(c *ssa.CallCommon, lm *localMods) {
 				lm.allocs[x] = true
 			}
 		case *ssa.MakeClosure:
-			for _, b := range x.Bindings {
-				visit(b, depth+1)
+			// only captured variables the closure may write (directly, or by handing their address
+			// to a callee) are affected by calling it
+			var cm *ModSet
+			if cf, ok := x.Fn.(*ssa.Function); ok {
+				cm = e.p.mods[cf]
+			}
+			for i, b := range x.Bindings {
+				if cm == nil || cm.all || cm.freeVars[i] {
+					visit(b, depth+1)
+				}
 			}
 		case *ssa.FieldAddr:
 			visit(x.X, depth+1)
@@ -1245,7 +1260,10 @@ func (e *enc) loopHead(li *loopInfo, st *State) {
 	if lc != nil {
 		env := e.envFor(st, e.entry)
 		for i, inv := range lc.invariants {
-			g := e.evalBool(inv.expr, env, "loop invariant")
+			g, ok := e.invEval(inv, env)
+			if !ok {
+				continue
+			}
 			e.oblige("inv-init", fmt.Sprintf("%s:%s", tag, clauseKey(inv, i)), g, token.NoPos, inv.text)
 		}
 	}
@@ -1332,7 +1350,9 @@ func (e *enc) loopHead(li *loopInfo, st *State) {
 	if lc != nil {
 		env := e.envFor(st, e.entry)
 		for _, inv := range lc.invariants {
-			e.assume(e.evalBool(inv.expr, env, "loop invariant"))
+			if g, ok := e.invEval(inv, env); ok {
+				e.assume(g)
+			}
 		}
 		if lc.decreases != nil {
 			v := e.evalSpec(lc.decreases.expr, env)
@@ -1341,6 +1361,15 @@ func (e *enc) loopHead(li *loopInfo, st *State) {
 			li.variant = n
 		}
 	}
+}
+
+// invEval evaluates a loop invariant. In the first encoding pass ghost cells bound later in the
+// function are not known yet: such invariants are skipped there (the second pass has them).
+func (e *enc) invEval(inv *Clause, env *Env) (string, bool) {
+	if e.firstPass {
+		return e.tryEvalBool(inv.expr, env, "loop invariant")
+	}
+	return e.evalBool(inv.expr, env, "loop invariant"), true
 }
 
 // latch checks invariant preservation on back edges from b.
@@ -1355,7 +1384,10 @@ func (e *enc) latch(b *ssa.BasicBlock, st *State, cond string, h *ssa.BasicBlock
 	tag := fmt.Sprintf("L%d", li.ordinal)
 	env := e.envFor(st, e.entry)
 	for i, inv := range lc.invariants {
-		g := e.evalBool(inv.expr, env, "loop invariant")
+		g, ok := e.invEval(inv, env)
+		if !ok {
+			continue
+		}
 		e.oblige("inv-pres", fmt.Sprintf("%s:%s", tag, clauseKey(inv, i)), g, token.NoPos, inv.text)
 	}
 	if lc.decreases != nil && li.variant != "" {
